@@ -48,6 +48,9 @@ func loadScript(ctx context.Context, options *Options) (*plruntime.Script, error
 	var err error
 	var scriptsContent map[string]string
 
+	// the name the script is registered under
+	scriptName := options.Script
+
 	if options.Workspace != "" {
 		scriptsContent, _, err = engine.ReadPlScriptFromDir(options.Workspace)
 		if err != nil {
@@ -61,16 +64,18 @@ func loadScript(ctx context.Context, options *Options) (*plruntime.Script, error
 		scriptsContent = map[string]string{
 			name: content,
 		}
+		// a single file may be given by path, it is registered under its base name
+		scriptName = name
 	}
 
 	scripts, errs := engine.ParseScript(scriptsContent, funcs.FuncsMap, funcs.FuncsCheckMap)
 	if len(errs) > 0 {
-		if err, ok := errs[options.Script]; ok {
+		if err, ok := errs[scriptName]; ok {
 			return nil, err
 		}
 	}
 
-	script, ok := scripts[options.Script]
+	script, ok := scripts[scriptName]
 	if !ok {
 		l.Debug(scripts)
 		return nil, fmt.Errorf("the specified script %s was not found in the parsed results", options.Script)
@@ -117,16 +122,17 @@ func runScript(ctx context.Context, options *Options, script *plruntime.Script) 
 
 	input.InitPt(pt, measurement, tags, fields, tn)
 
+	errR := script.Run(pt, nil)
+	if errR != nil {
+		return fmt.Errorf("run script error: %w", errR)
+	}
+
+	// report the point as the script left it
 	fields = pt.Fields
 	tags = pt.Tags
 	dropped = pt.Drop
 	tn = pt.Time
 	measurement = pt.Measurement
-
-	errR := script.Run(pt, nil)
-	if errR != nil {
-		return fmt.Errorf("run script error: %w", errR)
-	}
 
 	if dropped {
 		return fmt.Errorf("point dropped")
